@@ -80,11 +80,27 @@ def canon(o):
 
 def canon_axis(a):
     from abtem.core import axes as A
+    if isinstance(a, A.OrdinalAxis) and a.label.startswith("t"):   # a linear axis turned into the ordinal axis of selected coordinates
+        return f"Q{a.label[1:]}:{list_s((rat_s(v) for v in a.values))}"
     if isinstance(a, A.OrdinalAxis):
         return f"O{a.label[1:]}:{list_s(int(v) for v in a.values)}"
     if isinstance(a, A.LinearAxis):
         return f"N{a.label[1:]}:{rat_s(a.offset)}:{rat_s(a.sampling)}"
     return "U" if type(a) is A.UnknownAxis else f"T{a.label[1:]}"
+
+
+def select_item_by_item(raw, items):
+    out, dim = raw, 0
+    for it in items:
+        if it is None:
+            out = np.expand_dims(out, dim)
+            dim += 1
+        elif isinstance(it, int):
+            out = np.take(out, it, axis=dim)
+        else:
+            out = out[(slice(None),) * dim + (it,)]
+            dim += 1
+    return out
 
 
 def py_item(it):
@@ -157,8 +173,18 @@ def dask_unsafe(spec, op):
         return len(set(ax)) != len(ax)
     if op["op"] != "get":
         return False
-    # several independently invalid items (step 0, out-of-range int / list entry): which error wins is library specific
-    # (NumPy reports them in item order, dask validates integers first) — only the eager run is compared with the model
+    kinds = [i[0] for i in op["items"]]
+    if "l" in kinds and "n" in kinds:   # dask: "Don't yet support nd fancy indexing" with None next to an index list
+        return True
+    return _dask_slice_unsafe(spec, op)
+
+
+def multi_invalid(spec, op):
+    """several independently invalid items (step 0, out-of-range int / list entry): which error is raised first depends on the
+    order in which metadata and array are indexed and on the array library (NumPy: item order, dask: integers first) — for such
+    tuples only "an error is raised" is compared"""
+    if op["op"] != "get":
+        return False
     dim, invalid = 0, 0
     for it in op["items"]:
         if it[0] == "n":
@@ -171,8 +197,10 @@ def dask_unsafe(spec, op):
             invalid += 1
         elif it[0] == "l" and any(not -n <= v < n for v in it[1]):
             invalid += 1
-    if invalid >= 2:
-        return True
+    return invalid >= 2
+
+
+def _dask_slice_unsafe(spec, op):
     dim = 0
     for it in op["items"]:
         if it[0] == "n":
@@ -256,9 +284,7 @@ def gen_op(rng, spec, edge=False, with_arith=False):
         items, dim, has_list, has_int = [], 0, False, False
         for _ in range(cnt + rng.randint(0, 1)):
             n = spec["shape"][dim] if dim < nd else 2
-            it = gen_item(rng, n, allow_list=not has_list and not has_int and not any(x[0] == "n" for x in items), edge=edge)
-            if it[0] in ("i", "n") and has_list:  # (dask does not support None together with an index list)
-                it = ["s", None, None, None]
+            it = gen_item(rng, n, allow_list=True, edge=edge)
             if it[0] == "l":
                 has_list = True
             if it[0] == "i":
@@ -328,69 +354,16 @@ class C29(Property):
                     got = canon(run_op(spec, op, lazy))
                 except Exception as e:  # noqa
                     got = "err " + err_kind(e)
+                if multi_invalid(spec, op) and out.startswith("err") and got.startswith("err"):
+                    got = out   # several invalid items: only "an error is raised" is compared (see multi_invalid)
                 ctx.agree(f"ArrayObject {op['op']} ({'lazy' if lazy else 'eager'})", {"spec": spec, "op": op}, out, got)
             ctx.count(f"{op['op']}:{out.split(' ')[0]}{':' + out.split(' ')[1] if out.startswith('err') else ''}")
             ctx.case({"spec": spec, "op": op}, nontrivial=bool(spec["axes"]))
         ctx.traces += len(cases)
 
     # -- the property's conclusion, checked on the implementation without the model -------
-    @staticmethod
-    def corner(case):
-        """`get-int+list` when the item tuple holds an integer and an index list that are NOT adjacent (a slice or None between
-        them): NumPy then moves the broadcast dimension to the front.  Adjacent int/list combinations are ordinary cases."""
-        op = case["op"]
-        if op["op"] != "get" or op["keepdims"]:
-            return None
-        kinds = [i[0] for i in op["items"]]
-        adv = [j for j, k in enumerate(kinds) if k in ("i", "l")]
-        if "l" in kinds and "i" in kinds and any(b - a > 1 for a, b in zip(adv, adv[1:])):
-            return "get-int+list"
-        return None
-
     def oracle(self, ctx: Ctx, case):
-        before = len(ctx.violations)
-        r = self._oracle(ctx, case)
-        if self.corner(case) is not None:
-            for v in ctx.violations[before:]:
-                # the observed failure stays in the key; it is only re-keyed after an independent check that the case is the
-                # recorded one (NumPy moved the broadcast dimension / dask did not)
-                if self.is_recorded_advanced_index_case(case, v["key"]):
-                    v["key"] = "get-int+list:" + v["key"]
-        return r
-
-    @staticmethod
-    def is_recorded_advanced_index_case(case, observed):
-        spec, op = case["spec"], case["op"]
-        raw = np.arange(int(np.prod(spec["shape"])), dtype=np.float64).reshape(spec["shape"])
-        items = tuple(py_item(i) for i in op["items"])
-        try:
-            numpy_result = raw[items]
-            in_item_order = raw
-            # the same selection applied one item at a time (what the metadata code assumes)
-            dim = 0
-            for it in items:
-                if it is None:
-                    in_item_order = np.expand_dims(in_item_order, dim)
-                    dim += 1
-                elif isinstance(it, int):
-                    in_item_order = np.take(in_item_order, it, axis=dim)
-                else:
-                    in_item_order = in_item_order[(slice(None),) * dim + (it,)]
-                    dim += 1
-        except Exception:  # noqa
-            return False
-        moved = numpy_result.shape != in_item_order.shape or not np.array_equal(numpy_result, in_item_order)
-        if observed == "get-valid-operation-raises-RuntimeError":
-            return moved and numpy_result.shape != in_item_order.shape
-        if observed == "get-values-differ-from-numpy":
-            if not case.get("lazy") or not moved:
-                return False
-            try:   # dask keeps the item order: the lazy result must be exactly the item-by-item selection
-                lazy = run_op(spec, op, True)
-                return np.array_equal(np.real(np.asarray(lazy.compute().array)), in_item_order)
-            except Exception:  # noqa
-                return False
-        return False
+        return self._oracle(ctx, case)
 
     def _oracle(self, ctx: Ctx, case):
         from abtem.core import axes as A
@@ -408,9 +381,12 @@ class C29(Property):
                 else:
                     if op["keepdims"]:
                         items = tuple([i] if isinstance(i, int) else i for i in items)
-                        if sum(1 for i in items if isinstance(i, list)) > 1:
-                            return "skip"
-                    expect = raw[items]
+                    # specification: every item selects along its own dimension (the order the metadata is in); this IS
+                    # NumPy's result unless an index list meets an integer or another list (checked right below)
+                    expect = select_item_by_item(raw, items)
+                    adv = [i for i in items if isinstance(i, (int, list))]
+                    if len(adv) < 2 or all(isinstance(i, int) for i in adv):
+                        assert np.array_equal(expect, raw[items]), "oracle specification differs from NumPy on an ordinary index"
             elif k == "expand":
                 nd = raw.ndim + len(op["axes"])
                 ax = [a if a >= 0 else a + nd for a in op["axes"]]
@@ -525,15 +501,14 @@ class C29(Property):
                     if want != have:
                         ctx.violation("get-ordinal-values-not-carried", case, {"expected": want, "values": have})
                         return "ordvals"
-                elif a[0] == "T" and a[1] % 3 != 1 and isinstance(it, slice):
+                elif a[0] == "T" and a[1] % 3 != 1:
                     n_src = spec["shape"][j - 1]
                     want = list(np.array(mk_axis(a).coordinates(n_src))[sel])
-                    have = list(out_axes[oi].coordinates(len(want))) if len(want) else []
-                    if not np.allclose(want, have):
-                        fwd = (it.start is None or it.start >= 0) and (it.step is None or it.step >= 1)
-                        key = ("get-forward-slice-linear-axis-coordinates-wrong" if fwd
-                               else "get-backward-or-negative-start-slice-linear-axis-coordinates-not-updated")
-                        ctx.violation(key, case, {"expected": want, "coordinates": have})
+                    ax = out_axes[oi]
+                    have = [float(v) for v in (ax.values if isinstance(ax, A.OrdinalAxis) else ax.coordinates(len(want)))] if len(want) else []
+                    if len(have) != len(want) or not np.allclose(want, have):
+                        kind = "list" if isinstance(it, list) else ("forward-slice" if (it.step is None or it.step > 0) else "backward-slice")
+                        ctx.violation(f"get-{kind}-linear-axis-coordinates-wrong", case, {"expected": want, "coordinates": have})
                         return "coords"
                 oi += 1
         return "ok"
